@@ -19,7 +19,7 @@ CHECKS = {
          "Every multiplication path (mul_assign, CurveAffine::mul, precomp_3/256 tables, Wnaf in both staging orders and shared variants, hook path with explicit windows 2..=22) is compared with the model's [k]P on structured scalars and all point classes; wNAF context reuse is explored as generated histories compared with a fresh context; the finite sub-domains (256 single-bit scalars x paths, every recommended window, recommendation range) are enumerated. Scalars at multiples of r plus small offsets (ladder revisits its base). Histories: thousands of distinct arguments through the operation on one thread with re-evaluation of earlier ones (bounded memos), and 16 threads alternating between two arguments against the single-threaded reference. Scalars at coincidences of the interleaved comb of mul_precomp_256.",
          "5/C02", "Hook: verif_wnaf wrappers (windows not reachable through Wnaf)."),
  "C03": ("property-based testing against a textbook ate pairing over a flat Fq12 model and the published e(g1,g2)",
-         "Pairs with known discrete logs incl. identities and scalars >= r: exact agreement with an independent textbook pairing on a subset, bilinearity against the published e(g1,g2) raised to ab in the model, non-degeneracy, order, call direction; operands computed by the crate's own arithmetic (identities reached by P + (-P), [r]P); call histories on related points (negations, beta-twists) compared with the textbook value. A long history of thousands of pairings with distinct arguments on one thread, earlier pairs again against published^(ab). Projective arguments in generated representatives (scale factors from all of Fq2).",
+         "Pairs with known discrete logs incl. identities and scalars >= r: exact agreement with an independent textbook pairing on a subset, bilinearity against the published e(g1,g2) raised to ab in the model, non-degeneracy, order, call direction; operands computed by the crate's own arithmetic (identities reached by P + (-P), [r]P); call histories on related points (negations, beta-twists) compared with the textbook value. A long history of thousands of pairings with distinct arguments on one thread, earlier pairs again against published^(ab). Projective arguments in generated representatives (scale factors from all of Fq2). One operand in five is a subgroup point found by search with a coordinate in a special band (leading bits of q / zero, low 16 bits 0 / 1 / all ones).",
          "5/C03", ""),
  "C04": ("property-based differential testing of the four decoders against a model decoder (accepted point or first failing stage)",
          "Structured byte strings (valid encodings of every point class incl. each small prime order, all 8 flag combinations, out-of-range components, x without root, uniform bytes) are decoded by the crate (checked and unchecked) and by a model decoder that returns the point or the first failing validation stage; every outcome cell per format is populated and counted. Provenance: the checked decoder applied to the crate's own re-encoding of an unchecked-decoded point must give the verdict of the bytes. Curve points with x just below the modulus. Histories: thousands of distinct arguments through the operation on one thread with re-evaluation of earlier ones (bounded memos), and 16 threads alternating between two arguments against the single-threaded reference. Periodic junk behind every flag combination; subgroup points with coordinates in special numeric bands (searched corpus).",
